@@ -102,7 +102,15 @@ def run(tier, replay):
                 V.known("KF_DecrementPerShell" if (kf2 and not burst_kf) else "KF_CountAfterHandshake", desc)
             else:
                 V.violation(res["bad"][0], desc)
-        cov = {"states": states, "transitions": trans, "traces_validated_against_impl": len(cases),
+        # churn: disconnects overlapping accepts (the two critical sections of the counter run from different goroutines)
+        co = os.path.join(wd, "churn.json")
+        rc, out = vlib.go_test(wd, "./internal/server", OV, "TestC14Churn", env={"VERIF_OUT": co, "VERIF_ROUNDS": 6 if tier == "quick" else 40}, timeout=1500)
+        if rc != 0 or not os.path.exists(co):
+            raise vlib.Inconclusive("churn harness failed\n" + out[-2500:])
+        churn = json.load(open(co))
+        for b in churn["bad"] or []:
+            V.violation("churn: " + b, {"connections": churn["connections"], "bad": churn["bad"]})
+        cov = {"states": states, "transitions": trans, "traces_validated_against_impl": len(cases), "churn_connections": churn["connections"],
                "evaluations": sum(len(r.get("obs") or []) for r in results), "distinct_nontrivial": sum(1 for c in cases if interesting(c) or c.get("burst")),
                "rule": "cases = distinct complete histories of Connections.tla from TLC -simulate for (3 connections, Max 2), (3, 1), (4, 2), plus "
                        "one burst of Max+2 TCP connections before any handshake; every event is executed by a raw SSH client against an in-process "
